@@ -193,6 +193,9 @@ pub struct NetProgram {
     /// (kind even: a generic `Runtime`, odd: a `Sim`): (k, kind)
     #[serde(default)]
     pub intruder: Option<(u32, u8)>,
+    /// tasks capture a lease whose destructor consults the global view of the simulation
+    #[serde(default)]
+    pub leases: bool,
     /// extra top-level nodes built from des's own module blocks, each holding a token in its task / state:
     /// 1 = AsyncFn::new, 2 = AsyncFn::failable, 3 = AsyncFn::io + require_join, 4 = HandlerFn,
     /// 5 = AsyncFn::new whose handler hands every message to a freshly spawned worker task, awaits it and logs the
@@ -216,7 +219,8 @@ pub enum Ev {
     PeIn { pe: u16, uid: u32, kind: u16 },
     PeEnd { pe: u16 },
     Rand { v: u64 },
-    Query { parent_ok: bool, children_ok: bool, path_ok: bool, name_ok: bool },
+    /// `inactive`: bit 0 = the parent was reported as currently inactive, bit 1 + k = the k-th child (in program order) was
+    Query { parent_ok: bool, children_ok: bool, path_ok: bool, name_ok: bool, #[serde(default)] inactive: u32 },
     PanicNow,
     ShutdownReq { restart: i64 },
     /// async task records (engine asy)
@@ -407,31 +411,44 @@ impl ScriptMod {
                 let cur = current();
                 let expected_path = module_path(&self.prog, self.idx);
                 use des::net::module::ModuleReferencingError as MRE;
-                // (a parent / child that is shut down or has panicked is reported as currently inactive: fine)
+                // (a parent / child that is shut down or has panicked is reported as currently inactive: the oracle decides
+                // whether that relative really is down)
+                let glob = des::net::globals();
+                let same_node = |r: &ModuleRef, m: usize| {
+                    let path = module_path(&self.prog, m);
+                    r.path().as_str() == path && glob.get(&ObjectPath::from(path.as_str())).map_or(false, |g| g.id() == r.id())
+                };
+                let mut inactive = 0u32;
                 let parent_ok = match (spec.parent, cur.parent()) {
                     (-1, Err(MRE::NoEntry(_))) => true,
-                    (p, Ok(pr)) if p >= 0 => pr.path().as_str() == module_path(&self.prog, p as usize),
-                    (p, Err(MRE::CurrentlyInactive(_))) if p >= 0 => true,
+                    (p, Ok(pr)) if p >= 0 => same_node(&pr, p as usize),
+                    (p, Err(MRE::CurrentlyInactive(_))) if p >= 0 => {
+                        inactive |= 1;
+                        true
+                    }
                     _ => false,
                 };
                 let mut children_ok = true;
+                let mut k = 0u32;
                 for (ci, c) in self.prog.modules.iter().enumerate() {
                     let is_child = c.parent == self.idx as i32;
                     if is_child {
                         match cur.child(&c.name) {
-                            Ok(ch) => children_ok &= ch.path().as_str() == module_path(&self.prog, ci),
-                            Err(MRE::CurrentlyInactive(_)) => {}
+                            // the handle must be the node the tree knows under this path, not merely one with the same path
+                            Ok(ch) => children_ok &= same_node(&ch, ci),
+                            Err(MRE::CurrentlyInactive(_)) => inactive |= 1 << (1 + k.min(30)),
                             Err(_) => children_ok = false,
                         }
+                        k += 1;
                     }
                 }
                 if cur.child("no-such-child-xyz").is_ok() {
                     children_ok = false;
                 }
                 // the global view of the simulation must know this module under its path
-                let by_path = des::net::globals().get(&ObjectPath::from(expected_path.as_str()));
+                let by_path = glob.get(&ObjectPath::from(expected_path.as_str()));
                 let global_ok = by_path.map_or(false, |r| r.id() == cur.id());
-                rec(self.idx, Ev::Query { parent_ok, children_ok, path_ok: cur.path().as_str() == expected_path && global_ok, name_ok: cur.name() == spec.name });
+                rec(self.idx, Ev::Query { parent_ok, children_ok, path_ok: cur.path().as_str() == expected_path && global_ok, name_ok: cur.name() == spec.name, inactive });
             }
             Act::SelfMsg { delay_ns } => {
                 let uid = uid_of(self.idx, site, ai, self.inc);
@@ -645,7 +662,7 @@ impl Module for ScriptMod {
         }
         let acts = self.spec().end_acts.clone();
         for (ai, a) in acts.iter().enumerate().take(8) {
-            if matches!(a, Act::Send { .. } | Act::SelfMsg { .. } | Act::Random) && !self.do_act(END_SITE, ai, a) {
+            if matches!(a, Act::Send { .. } | Act::SelfMsg { .. } | Act::Random | Act::QueryTree) && !self.do_act(END_SITE, ai, a) {
                 break;
             }
         }
